@@ -55,7 +55,12 @@ _SR = [0, 5, 10, 15, 4, 9, 14, 3, 8, 13, 2, 7, 12, 1, 6, 11]
 _ISR = [0, 13, 10, 7, 4, 1, 14, 11, 8, 5, 2, 15, 12, 9, 6, 3]
 
 def aes_enc(key, blk):
-    rk = _expand(bytes(key))
+    return _aes_enc(bytes(key), bytes(blk))
+
+
+@functools.lru_cache(maxsize=1 << 16)
+def _aes_enc(key, blk):
+    rk = _expand(key)
     s = [a ^ b for a, b in zip(blk, rk[0])]
     for r in range(1, 11):
         s = [SBOX[x] for x in s]
@@ -93,6 +98,11 @@ def _dbl(b):
     return v.to_bytes(16, "big")
 
 def cmac(key, msg):
+    return _cmac(bytes(key), bytes(msg))
+
+
+@functools.lru_cache(maxsize=1 << 16)
+def _cmac(key, msg):
     k1 = _dbl(aes_enc(key, bytes(16)))
     k2 = _dbl(k1)
     n = max(1, (len(msg) + 15) // 16)
